@@ -1,5 +1,6 @@
 import DmrVerif.Props.C10
 import DmrVerif.Gen.TranslTrellis
+import DmrVerif.Lemmas.TranslTrellis
 
 /-!
 # C10t — the SOURCE of `etsi/fec/trellis.py`, translated (`Gen/TranslTrellis.lean`, `tools/py2lean_arr.py`)
@@ -25,6 +26,18 @@ theorem tables_eq :
     TRELLIS34_CONSTELLATION_POINTS = Gen.Trellis.constellation.map (fun e => (e.1, (e.2 : Int))) ∧
     TRELLIS34_CONSTELLATION_POINTS_REVERSE = Gen.Trellis.constellationReverse.map (fun e => ((e.1 : Int), e.2)) := by
   decide +kernel
+
+/-- `bits_to_tribits(original)` for every bit string: the model's `bitsToTribits` (big-endian bitarray); never raises (every
+slice handed to `ba2int` is non-empty, every value fits `array('B')`) -/
+theorem bits_to_tribits_eq (original : Bits) :
+    bits_to_tribits original = .ok ((Trellis.bitsToTribits false original).map (fun x : Nat => (x : Int))) :=
+  Transl.Trellis.bits_to_tribits_eq original
+
+/-- `points_to_dibits(constellations)` for every array of naturals: the model's `pointsToDibits`, `KeyError` for a point that is
+not in the reverse table included; no `OverflowError` of `array('b')` is reachable -/
+theorem points_to_dibits_eq (ps : List Nat) :
+    points_to_dibits (ps.map (fun x : Nat => (x : Int))) = Transl.Trellis.ofR id (Trellis.pointsToDibits ps) :=
+  Transl.Trellis.points_to_dibits_eq ps
 
 /-! ## non-vacuity / pin: a random 144-bit block, its code word computed with the real `Trellis34.encode`, the round trip,
 and a single inverted bit of the code word that the translated `decode` rejects like the real one (`AssertionError`) -/
